@@ -44,6 +44,21 @@ func names(n int) []string {
 	return out
 }
 
+// rapid's integer generators are biased towards small values (IntRange(0,99) < 8 holds in
+// 40% of the draws), which is right for sizes but wrong for probabilities and for choices
+// among equals. Fair bits are built from Bool draws (50/50); they shrink towards zero.
+func ubits(t *rapid.T, k int) int {
+	v := 0
+	for i := 0; i < k; i++ {
+		v <<= 1
+		if rapid.Bool().Draw(t, "bit") {
+			v |= 1
+		}
+	}
+	return v
+}
+
+// pct is true with probability p percent; it shrinks towards false.
 func pct(t *rapid.T, p int, label string) bool {
 	if p <= 0 {
 		return false
@@ -51,16 +66,37 @@ func pct(t *rapid.T, p int, label string) bool {
 	if p >= 100 {
 		return true
 	}
-	return rapid.IntRange(0, 99).Draw(t, label) < p
+	return ubits(t, 7) >= 128-(p*128+50)/100
 }
 
+// pick chooses uniformly; it shrinks towards the first element.
 func pick[T any](t *rapid.T, xs []T, label string) T {
-	return xs[rapid.IntRange(0, len(xs)-1).Draw(t, label)]
+	if len(xs) == 1 {
+		return xs[0]
+	}
+	k := 1
+	for (1 << k) < len(xs) {
+		k++
+	}
+	return xs[ubits(t, k+3)%len(xs)]
+}
+
+// irange is a uniform integer in [lo,hi]; it shrinks towards lo.
+func irange(t *rapid.T, lo, hi int, label string) int {
+	if hi <= lo {
+		return lo
+	}
+	n := hi - lo + 1
+	k := 1
+	for (1 << k) < n {
+		k++
+	}
+	return lo + ubits(t, k+3)%n
 }
 
 // GenProject draws the static part of a scenario.
 func GenProject(t *rapid.T, pr Profile) *sc.Scenario {
-	n := rapid.IntRange(pr.MinProcs, pr.MaxProcs).Draw(t, "nprocs")
+	n := irange(t, pr.MinProcs, pr.MaxProcs, "nprocs")
 	nm := names(n)
 	s := &sc.Scenario{Ordered: pr.Ordered}
 	codes := pr.Codes
@@ -73,13 +109,13 @@ func GenProject(t *rapid.T, pr Profile) *sc.Scenario {
 			p.Restart = pick(t, pr.Policies, "policy")
 			if p.Restart == "always" || p.Restart == "on_failure" {
 				if pr.MaxRestartsMax > 0 {
-					p.MaxRestarts = rapid.IntRange(0, pr.MaxRestartsMax).Draw(t, "maxr")
+					p.MaxRestarts = irange(t, 0, pr.MaxRestartsMax, "maxr")
 				}
 				if pr.BackoffMax > 0 {
-					p.Backoff = rapid.IntRange(0, pr.BackoffMax).Draw(t, "backoff")
+					p.Backoff = irange(t, 0, pr.BackoffMax, "backoff")
 				}
 				if p.Restart == "always" && p.MaxRestarts == 0 {
-					p.MaxRestarts = rapid.IntRange(0, 3).Draw(t, "maxr2") // mostly bounded, sometimes endless
+					p.MaxRestarts = irange(t, 0, 3, "maxr2") // mostly bounded, sometimes endless
 				}
 			}
 		}
@@ -99,7 +135,7 @@ func GenProject(t *rapid.T, pr Profile) *sc.Scenario {
 		}
 		nb := 1
 		if p.Restart == "always" || p.Restart == "on_failure" {
-			nb = rapid.IntRange(1, 3).Draw(t, "nbeh")
+			nb = irange(t, 1, 3, "nbeh")
 		}
 		for k := 0; k < nb; k++ {
 			b := sc.LaunchBeh{}
@@ -136,7 +172,7 @@ func GenProject(t *rapid.T, pr Profile) *sc.Scenario {
 		}
 		s.Procs = append(s.Procs, p)
 	}
-	nf := rapid.IntRange(1, 3).Draw(t, "nfin")
+	nf := irange(t, 1, 3, "nfin")
 	for i := 0; i < nf; i++ {
 		s.FinishCodes = append(s.FinishCodes, pick(t, codes, "fincode"))
 	}
@@ -205,7 +241,7 @@ func APIStep(t *rapid.T, e *sc.Exec, pr Profile) (sc.Step, bool) {
 		}
 		return sc.Step{Op: sc.OpShutdown}, true
 	case sc.OpStopMany:
-		k := rapid.IntRange(1, 2).Draw(t, "nstop")
+		k := irange(t, 1, 2, "nstop")
 		st := sc.Step{Op: sc.OpStopMany}
 		for i := 0; i < k; i++ {
 			st.Names = append(st.Names, pick(t, nm, "stopname"))
@@ -233,10 +269,10 @@ func RunSteps(t *rapid.T, s *sc.Scenario, pr Profile) *sc.History {
 	if len(codes) == 0 {
 		codes = []int{0, 1, 2}
 	}
-	n := rapid.IntRange(0, pr.MaxSteps).Draw(t, "nsteps")
+	n := irange(t, 0, pr.MaxSteps, "nsteps")
 	shutdownAt := -1
 	if pr.ShutdownStep {
-		shutdownAt = rapid.IntRange(0, n).Draw(t, "shutdownAt")
+		shutdownAt = irange(t, 0, n, "shutdownAt")
 	}
 	for i := 0; i <= n; i++ {
 		if i == shutdownAt && !e.ShutdownSeen {
@@ -269,7 +305,7 @@ func RunSteps(t *rapid.T, s *sc.Scenario, pr Profile) *sc.History {
 					break
 				}
 			} else {
-				st = opts[rapid.IntRange(0, len(opts)-1).Draw(t, "opt")]
+				st = opts[irange(t, 0, len(opts)-1, "opt")]
 			}
 		}
 		s.Steps = append(s.Steps, st)
